@@ -82,4 +82,19 @@ class CompressedFileHandler(FileHandler):
     def write(self, wfile):
         decompprog = self.decompressors[self.getentry().realencoding]
         with self.vfs.open(self.getselector(), "rb") as fp:
-            subprocess.run([decompprog], stdin=fp, stdout=wfile)
+            if not self.protocol.check_tls() and self.hasfileno(wfile):
+                subprocess.run([decompprog], stdin=fp, stdout=wfile)
+            else:
+                # We can't pass the file handler because it's wrapped in a TLS context
+                # or is an in-memory buffer (e.g. the WAP text conversion).
+                # So grab the decompressor's output and send it ourselves.
+                resp = subprocess.run([decompprog], stdin=fp, capture_output=True)
+                wfile.write(resp.stdout)
+
+    @staticmethod
+    def hasfileno(wfile) -> bool:
+        try:
+            wfile.fileno()
+        except (AttributeError, OSError):
+            return False
+        return True
